@@ -131,6 +131,8 @@ def main(argv):
         functions.append({"function": t, "source_sha256_16": r["sha"], "paths": r["paths"],
                           "obligations": len(r["obligations"]), "wall_s": round(r.get("wall_s", 0), 2),
                           "canary": r["canary"]})
+        if r.get("dropped"):
+            functions[-1]["partial"] = r["dropped"]
         solver_s += r.get("solver_s", 0.0)
         if r["error"]:
             kind = "crash" if r["error"].startswith("crash") else "outside-subset"
